@@ -1,37 +1,64 @@
+//! pgv-lib — library-level monitors for pgcat properties C05, C06, C13, C19.
+//!
+//! usage: pgv-lib <C05|C06|C13|C19> <quick|thorough> <seed:u64>
+//!
+//! Progress goes to stderr; exactly one JSON object is printed on stdout.  The exit code is
+//! 0 unless the tool itself is broken (bad usage, internal error).
+
+mod c05;
+mod c06;
+mod c13;
+mod c19;
+mod gen;
+mod util;
+
 use pgcat::query_router::QueryRouter;
-use pgcat::messages::simple_query;
+
+fn usage() -> ! {
+    eprintln!("usage: pgv-lib <C05|C06|C13|C19> <quick|thorough> <seed:u64>   (PGV_THREADS=n overrides the thread count)");
+    std::process::exit(2);
+}
+
 fn main() {
-    QueryRouter::setup();
-    let qr = QueryRouter::new();
-    let qs = [
-        "VACUUM t", "COPY t TO STDOUT", "COPY t FROM STDIN", "COPY (SELECT 1) TO STDOUT", "LOCK TABLE t", "LOCK TABLE t IN ACCESS EXCLUSIVE MODE", "GRANT SELECT ON t TO u",
-        "REVOKE SELECT ON t FROM u", "TRUNCATE t", "TRUNCATE TABLE t", "CREATE TABLE t (id int)", "CREATE TABLE t AS SELECT 1", "ALTER TABLE t ADD COLUMN x int", "DROP TABLE t",
-        "CREATE INDEX i ON t (id)", "DROP INDEX i", "CREATE VIEW v AS SELECT 1", "MERGE INTO t USING s ON t.id = s.id WHEN MATCHED THEN UPDATE SET x = 1",
-        "MERGE INTO t USING s ON t.id = s.id WHEN NOT MATCHED THEN INSERT (id) VALUES (s.id)",
-        "WITH x AS (SELECT 1) DELETE FROM t", "WITH x AS (SELECT 1) INSERT INTO t SELECT * FROM x", "WITH x AS (SELECT 1) UPDATE t SET a = 1",
-        "WITH t AS (INSERT INTO a VALUES (1) RETURNING *) SELECT * FROM t", "WITH t AS (UPDATE a SET x = 1 RETURNING *) SELECT * FROM t", "WITH t AS (DELETE FROM a RETURNING *) SELECT * FROM t",
-        "SELECT * INTO newt FROM t", "SELECT * FROM t FOR UPDATE", "SELECT * FROM t FOR NO KEY UPDATE", "SELECT * FROM t FOR SHARE", "SELECT * FROM t FOR KEY SHARE",
-        "SELECT * FROM t FOR UPDATE OF t NOWAIT", "SELECT * FROM t FOR UPDATE SKIP LOCKED",
-        "SELECT * FROM (SELECT * FROM t FOR UPDATE) s", "WITH c AS (SELECT * FROM t FOR SHARE) SELECT * FROM c", "SELECT * FROM a WHERE id IN (SELECT id FROM t FOR UPDATE)",
-        "SELECT (SELECT id FROM t LIMIT 1 FOR UPDATE)", "(SELECT * FROM t FOR UPDATE)", "(SELECT 1) UNION (SELECT 2)", "SELECT 1 UNION SELECT 2 INTERSECT SELECT 3 EXCEPT SELECT 4",
-        "BEGIN", "BEGIN TRANSACTION", "BEGIN WORK", "START TRANSACTION", "BEGIN ISOLATION LEVEL SERIALIZABLE", "START TRANSACTION READ ONLY", "BEGIN READ WRITE", "BEGIN TRANSACTION ISOLATION LEVEL REPEATABLE READ, READ ONLY",
-        "START TRANSACTION ISOLATION LEVEL READ COMMITTED", "BEGIN DEFERRABLE", "COMMIT", "ROLLBACK", "END", "SAVEPOINT a", "SET LOCAL x = 1", "SET x TO 1", "SHOW x", "EXPLAIN SELECT 1", "EXPLAIN ANALYZE INSERT INTO t VALUES (1)", "ANALYZE t",
-        "DELETE FROM t USING u WHERE t.id = u.id", "UPDATE t SET a = 1 FROM u WHERE t.id = u.id", "INSERT INTO t SELECT * FROM u", "INSERT INTO t (id) VALUES (1) ON CONFLICT DO NOTHING", "INSERT INTO t DEFAULT VALUES",
-        "SELECT * FROM \"T\"", "SELECT * FROM a.b.c", "SELECT * FROM \"a\".\"b\"", "TABLE t", "VALUES (1)", "SELECT 1;;SELECT 2", "", ";", "CALL p()", "DO $$ BEGIN END $$", "LISTEN x", "NOTIFY x", "PREPARE p AS SELECT 1", "EXECUTE p", "DEALLOCATE p",
-        "DISCARD ALL", "REFRESH MATERIALIZED VIEW v", "CREATE SCHEMA s", "DROP SCHEMA s", "CREATE SEQUENCE s", "ALTER TABLE t RENAME TO u", "COMMENT ON TABLE t IS 'x'", "CLUSTER t", "REINDEX TABLE t", "CHECKPOINT",
-        "SELECT nextval('s')", "DECLARE c CURSOR FOR SELECT 1", "FETCH NEXT FROM c", "CLOSE c", "CREATE FUNCTION f() RETURNS int LANGUAGE sql AS 'select 1'", "CREATE EXTENSION x", "CREATE ROLE r", "DROP ROLE r", "ALTER ROLE r WITH LOGIN",
-        "CREATE TEMP TABLE t (id int)", "CREATE UNLOGGED TABLE t (id int)", "DROP VIEW v", "CREATE MATERIALIZED VIEW v AS SELECT 1", "CREATE TYPE ty AS ENUM ('a')", "UNLISTEN x", "CREATE DATABASE d", "DROP FUNCTION f",
-        "SELECT * FROM t1 JOIN t2 ON t1.id = t2.id", "SELECT * FROM t1 LEFT JOIN t2 USING (id)", "SELECT * FROM t1, t2", "SELECT * FROM ONLY t", "SELECT * FROM t AS x", "SELECT * FROM LATERAL (SELECT 1) s",
-        "DELETE FROM ONLY t", "UPDATE ONLY t SET a = 1", "INSERT INTO t AS x VALUES (1)", "SELECT pg_user FROM t", "SELECT 1 AS pg_user", "SELECT * FROM t pg_user", "SELECT * FROM t AS pg_user",
-        "COPY t (a, b) TO STDOUT", "COPY a.t TO STDOUT", "COPY t FROM STDIN WITH (FORMAT csv)", "COPY t TO '/tmp/x'",
-    ];
-    for q in qs {
-        match qr.parse(&simple_query(q)) {
-            Ok(ast) => {
-                let kinds: Vec<String> = ast.iter().map(|s| { let d = format!("{:?}", s); d.split(|c: char| !c.is_alphanumeric()).next().unwrap().to_string() }).collect();
-                println!("OK   {:60} -> {:?} | {}", q, kinds, ast.iter().map(|s| s.to_string()).collect::<Vec<_>>().join(" ;; "));
-            }
-            Err(e) => println!("ERR  {:60} -> {:?}", q, e),
-        }
+    let args: Vec<String> = std::env::args().collect();
+    if args.len() != 4 {
+        usage();
     }
+    let prop = args[1].to_ascii_uppercase();
+    let thorough = match args[2].as_str() {
+        "quick" => false,
+        "thorough" => true,
+        _ => usage(),
+    };
+    let seed: u64 = match args[3].parse() {
+        Ok(s) => s,
+        Err(_) => usage(),
+    };
+
+    // pgcat panics are caught and reported as outcome=panic; keep stderr clean.
+    std::panic::set_hook(Box::new(|_| {}));
+
+    if !QueryRouter::setup() {
+        eprintln!("pgv-lib: QueryRouter::setup() failed");
+        std::process::exit(3);
+    }
+
+    let t0 = std::time::Instant::now();
+    util::progress(&format!("{} {} seed={} threads={}", prop, args[2], seed, util::n_threads()));
+    let (mut acc, extra) = match prop.as_str() {
+        "C05" => (c05::run(thorough, seed), 0),
+        "C06" => {
+            let a = c06::run(thorough, seed);
+            let e = c06::extra_distinct(&a);
+            (a, e)
+        }
+        "C13" => (c13::run(thorough, seed), 0),
+        "C19" => (c19::run(thorough, seed), 0),
+        _ => usage(),
+    };
+    acc.set("elapsed_ms", t0.elapsed().as_millis() as u64);
+    acc.set("threads", util::n_threads() as u64);
+    util::progress(&format!("{} done in {:.1}s, {} evaluations, {} violation signatures", prop, t0.elapsed().as_secs_f64(), acc.evaluations, acc.violations.len()));
+    let out = acc.to_json(extra);
+    println!("{}", serde_json::to_string(&out).expect("json"));
 }
